@@ -10,6 +10,8 @@ import ast
 import z3
 
 from .extract import ClassInfo
+from . import exprs
+from .exprs import VExpr, VESeq, VDist, VAnyZero
 from .values import (freeze, NONE, OutOfSubset, V, VBool, VComp, VDict, VFam, VFunc, VGraph, VInt, VModule, VNode, VNone, VNx,
                      VObj, VOpaque, VPos, VSeq, VSet, VStr, VTuple)
 
@@ -138,6 +140,10 @@ def acyclic(ex, E):
 # ------------------------------------------------------------------------------------------------ attributes
 def get_attr(ex, base, attr):
     L = ex.L
+    if isinstance(base, VExpr):
+        return exprs.expr_attr(ex, base, attr)
+    if isinstance(base, VESeq):
+        return VFunc("boundlib", attr, self_val=base)
     if isinstance(base, VGraph):
         if attr == "__class__":
             return VFunc("class", ex.repo.resolve("y0.graph.NxMixedGraph"))
@@ -244,6 +250,10 @@ def set_item(ex, obj, key, value):
 
 def get_item(ex, base, key):
     L = ex.L
+    if isinstance(base, VESeq) and isinstance(key, VInt) and key.const() == 0:
+        T = exprs.theory(ex)
+        ex.require(L.Not(T.is_nil(base.t)), "IndexError", "getitem")
+        return VExpr(T.reg(T.head(base.t)))
     if isinstance(base, VTuple) and isinstance(key, VInt) and key.const() is not None:
         i = key.const()
         if -len(base.items) <= i < len(base.items):
@@ -306,6 +316,8 @@ def aug_assign(ex, cur, op, rhs):
 
 def binop(ex, l, op, r):
     L = ex.L
+    if isinstance(l, VExpr) or isinstance(r, VExpr):
+        return exprs.expr_binop(ex, l, op, r)
     if isinstance(op, (ast.Sub, ast.BitOr, ast.BitAnd, ast.BitXor)) and _setlike(l) and _setlike(r):
         a, b = ex.as_set(l), ex.as_set(r)
         if a.arity != b.arity:
@@ -427,6 +439,8 @@ def member(ex, l, r):
 
 def equal(ex, l, r):
     L = ex.L
+    if isinstance(l, VExpr) or isinstance(r, VExpr):
+        return exprs.expr_equal(ex, l, r)
     if isinstance(l, VNode) and isinstance(r, VNode):
         return l.t == r.t
     if isinstance(l, VNone) or isinstance(r, VNone):
@@ -465,6 +479,15 @@ def equal(ex, l, r):
 def count_cmp(ex, s, op, n):
     """len(s) <op> n for small constant n without a cardinality theory."""
     L = ex.L
+    if isinstance(s, VESeq):
+        T = exprs.theory(ex)
+        nil, one = T.is_nil(s.t), T.is_len1(s.t)
+        table = {("==", 0): nil, ("==", 1): one, ("<", 1): nil, ("<", 2): L.Or(nil, one), ("<=", 0): nil, ("<=", 1): L.Or(nil, one),
+                 (">", 0): L.Not(nil), (">=", 1): L.Not(nil), (">", 1): L.Not(L.Or(nil, one)), (">=", 2): L.Not(L.Or(nil, one)),
+                 ("!=", 0): L.Not(nil), ("!=", 1): L.Not(one)}
+        if (op, n) in table:
+            return table[(op, n)]
+        raise OutOfSubset("length comparison of a sequence of expressions")
     st = ex.as_set(s) if not isinstance(s, VFam) else None
     if st is not None and st.kind == "list" and False:
         raise OutOfSubset("len of an order-abstracted list")
@@ -528,6 +551,8 @@ def compare(ex, l, op, r):   # noqa: F811  (wraps the structural compare with le
 def construct(ex, cls: ClassInfo, args, kwargs):
     L = ex.L
     q = cls.qualname
+    if q.startswith("y0.dsl.") and ex.repo.is_subclass(cls, "y0.dsl.Expression"):
+        return exprs.expr_construct(ex, cls, args, kwargs)
     if q == "y0.graph.NxMixedGraph":
         d = kwargs.get("directed", args[0] if args else None)
         u = kwargs.get("undirected", args[1] if len(args) > 1 else None)
@@ -571,6 +596,25 @@ def call_builtin(ex, name, args, kwargs):
     short = name.split(".")[-1]
     if name not in MUTATING_BUILTINS:
         args = [freeze(a) if isinstance(a, V) else a for a in args]
+    if args and isinstance(args[0], VESeq) and name != "isinstance":
+        T = exprs.theory(ex)
+        sq = args[0]
+        if name in ("tuple", "list", "iter"):
+            return sq
+        if name == "sorted" and not kwargs:
+            ex.assumption_notes.add("sorted() of expressions is a permutation (Expression.__lt__ compares _get_key(); "
+                                    "comparability of the keys is not modelled here)")
+            return VESeq(T.regs(T.perm(sq.t)))
+        if name == "len":
+            return VLen(sq)
+        if name == "bool":
+            return VBool(L.Not(T.is_nil(sq.t)))
+        raise OutOfSubset(f"{name}() of a sequence of expressions")
+    if args and isinstance(args[0], VAnyZero):
+        if name == "any":
+            T = exprs.theory(ex)
+            return VBool(T.has_zero(args[0].seq.t))
+        raise OutOfSubset(f"{name}() over an expression test")
     if name in ("set", "frozenset", "list", "tuple"):
         if not args:
             s = empty_set(kind="list" if name in ("list", "tuple") else "set")
@@ -754,6 +798,10 @@ def isinstance_(ex, v, t):
     if not isinstance(t, VFunc):
         raise OutOfSubset("isinstance against a non-class")
     tn = t.target.qualname if t.kind == "class" else t.target
+    if isinstance(v, VExpr):
+        return exprs.expr_isinstance(ex, v, tn)
+    if isinstance(v, (VESeq, VDist, exprs.VAnyZero)):
+        return z3.BoolVal(tn in ("tuple",) and isinstance(v, VESeq))
     if isinstance(v, VNode):
         if tn == "y0.dsl.Variable":
             return L.T()
@@ -767,8 +815,7 @@ def isinstance_(ex, v, t):
     if isinstance(v, VGraph):
         return z3.BoolVal(tn == "y0.graph.NxMixedGraph")
     if isinstance(v, (VSet, VSeq, VTuple, VComp, VFam, VDict)):
-        if tn in ("y0.dsl.Variable", "y0.dsl.Intervention", "y0.dsl.CounterfactualVariable", "str",
-                  "y0.graph.NxMixedGraph"):
+        if tn in ("str", "y0.graph.NxMixedGraph") or tn.startswith("y0.dsl."):
             return L.F()
         raise OutOfSubset(f"isinstance(collection, {tn})")
     if isinstance(v, VObj) and isinstance(v.cls, ClassInfo) and t.kind == "class":
